@@ -107,6 +107,10 @@ func checkPair(vm *msg.NatHoleVisitor, cm *msg.NatHoleClient, vr, cr *msg.NatHol
 				return fmt.Errorf("error response to the %s still carries an instruction: %+v", who, r)
 			}
 		}
+		// each party finds its answer by the transaction id of its OWN request: an error response is a response
+		if vr.TransactionID != vm.TransactionID || cr.TransactionID != cm.TransactionID {
+			return fmt.Errorf("malformed addresses: error responses do not echo each party's own transaction id: visitor sent %q got %q, owner sent %q got %q (a party that cannot match the answer waits for its timeout)", vm.TransactionID, vr.TransactionID, cm.TransactionID, cr.TransactionID)
+		}
 		return nil
 	}
 	if vr.Error != "" || cr.Error != "" {
@@ -139,6 +143,15 @@ func checkPair(vm *msg.NatHoleVisitor, cm *msg.NatHoleClient, vr, cr *msg.NatHol
 				return fmt.Errorf("%s got candidate port range [%d,%d] (must be within 1..65535, start <= end)", who, pr.From, pr.To)
 			}
 		}
+	}
+	// "two honest peers that follow the instructions do find each other": the receiver must still be reading when the
+	// sender is allowed to start (the sender's answer is held back 1 s by the server, then it waits its send delay)
+	recv, send := vb, cb
+	if vb.Role == "sender" {
+		recv, send = cb, vb
+	}
+	if recv.ReadTimeoutMs <= send.SendDelayMs+1000 {
+		return fmt.Errorf("mode %d: the receiver is told to read for %d ms, the sender to start after %d ms (+1 s head start): the receiver has given up before the sender begins", vb.Mode, recv.ReadTimeoutMs, send.SendDelayMs)
 	}
 	if vr.Protocol != vm.Protocol || cr.Protocol != vm.Protocol {
 		return fmt.Errorf("protocol not the visitor's: %q/%q vs %q", vr.Protocol, cr.Protocol, vm.Protocol)
